@@ -23,7 +23,7 @@ def exampleGraph : Graph :=
 theorem matrices_end_times (g : Graph) (hv : validGraph g = true) :
     ∃ mms ends, migrationMatrices g = .ok (mms, ends) ∧ ends ≠ [] ∧ ends.getLast? = some 0
       ∧ ends.Pairwise (· > ·) ∧ mms.length = ends.length := by
-  have hf := validFacts hv
+  have hf := (validFacts hv).toMigFacts
   obtain ⟨mms, h, hl, _, _⟩ := mm_main g hf
   obtain ⟨h1, h2, h3, _⟩ := mmEndTimes_props g.migrations (times_nonneg hf)
   exact ⟨mms, _, h, h1, h2, h3, hl⟩
@@ -33,7 +33,7 @@ theorem matrices_pointwise (g : Graph) (hv : validGraph g = true) (mms : List Ma
     (i j : Nat) (di dj : Deme) (hi : g.demes[i]? = some di) (hj : g.demes[j]? = some dj) :
     ∃ k mm, intervalOf ends t = some k ∧ mms[k]? = some mm
       ∧ mm.get i j = rateAt g dj.name di.name t := by
-  have hf := validFacts hv
+  have hf := (validFacts hv).toMigFacts
   obtain ⟨mms0, h0, hl, _, hget⟩ := mm_main g hf
   obtain ⟨_, hlast, hp, hmem⟩ := mmEndTimes_props g.migrations (times_nonneg hf)
   rw [h0] at h
@@ -49,7 +49,7 @@ theorem matrices_pointwise (g : Graph) (hv : validGraph g = true) (mms : List Ma
 theorem matrices_shape (g : Graph) (hv : validGraph g = true) (mms : List Matrix) (ends : List Q)
     (h : migrationMatrices g = .ok (mms, ends)) :
     ∀ mm ∈ mms, mm.length = g.demes.length ∧ ∀ row ∈ mm, row.length = g.demes.length := by
-  obtain ⟨mms0, h0, _, hsh, _⟩ := mm_main g (validFacts hv)
+  obtain ⟨mms0, h0, _, hsh, _⟩ := mm_main g (validFacts hv).toMigFacts
   rw [h0] at h
   simp only [Except.ok.injEq, Prod.mk.injEq] at h
   obtain ⟨rfl, rfl⟩ := h
@@ -60,30 +60,14 @@ theorem matrices_row_sum (g : Graph) (hv : validGraph g = true) (mms : List Matr
     (h : migrationMatrices g = .ok (mms, ends)) (k i : Nat) (e : Q) (mm : Matrix) (row : List Q)
     (di : Deme) (he : ends[k]? = some e) (hmm : mms[k]? = some mm) (hrow : mm[i]? = some row)
     (hi : g.demes[i]? = some di) :
-    rowSum row = ingressAt g di.name e := by
-  have hf := validFacts hv
-  obtain ⟨mms0, h0, hl, hsh, hget⟩ := mm_main g hf
-  obtain ⟨_, _, hp, hmem⟩ := mmEndTimes_props g.migrations (times_nonneg hf)
-  rw [h0] at h
-  simp only [Except.ok.injEq, Prod.mk.injEq] at h
-  obtain ⟨rfl, rfl⟩ := h
-  obtain ⟨hklt, rfl⟩ := List.getElem?_eq_some_iff.mp he
-  have hs := hsh mm (List.mem_of_getElem? hmm)
-  have hrow_eq : row = g.demes.map (fun dj => rateAt g dj.name di.name (mmEndTimes g.migrations)[k]) := by
-    rw [row_eq hs hrow]
-    apply List.ext_getElem
-    · simp
-    · intro j h1 h2
-      simp only [List.length_map, List.length_range] at h1
-      simp only [List.getElem_map, List.getElem_range]
-      exact entry_eq hf hp hmem hget (intervalOf_self hp hklt) hmm hi (List.getElem?_eq_getElem h1)
-  rw [rowSum_eq, hrow_eq, ingress_eq hf]
+    rowSum row = ingressAt g di.name e :=
+  row_sum_of_facts (validFacts hv).toMigFacts h he hmm hrow hi
 
 theorem matrices_rows_le_one (g : Graph) (hv : validGraph g = true) (mms : List Matrix) (ends : List Q)
     (h : migrationMatrices g = .ok (mms, ends)) :
     ∀ mm ∈ mms, ∀ row ∈ mm, ingressOk (rowSum row) = true := by
   intro mm hmm row hrow
-  have hf := validFacts hv
+  have hf := (validFacts hv).toMigFacts
   obtain ⟨k, hk⟩ := List.mem_iff_getElem?.mp hmm
   obtain ⟨i, hi⟩ := List.mem_iff_getElem?.mp hrow
   have hs := matrices_shape g hv mms ends h mm hmm
@@ -98,6 +82,6 @@ theorem matrices_rows_le_one (g : Graph) (hv : validGraph g = true) (mms : List 
     rw [← hl]; exact (List.getElem?_eq_some_iff.mp hk).1
   rw [matrices_row_sum g hv _ _ h k i _ mm row g.demes[i] (List.getElem?_eq_getElem hklt) hk hi
     (List.getElem?_eq_getElem hilt)]
-  exact hf.ingress _ (mem_boundaries ((hmem _).mp (List.getElem_mem _))) _ (List.getElem_mem _)
+  exact (validFacts hv).ingress _ (mem_boundaries ((hmem _).mp (List.getElem_mem _))) _ (List.getElem_mem _)
 
 end Demes.Proofs
